@@ -295,9 +295,12 @@ Definition st0 (clock0 : N) (nl ns : nat) (lgf : nat -> lgr) (skf : nat -> snk) 
 Definition be_run_enc (l : list N) : list N :=
   match l with
   | dr :: capk :: batch :: ob :: od :: tinit :: soft :: hard :: grace :: bits :: rf2 :: ca :: rfirst :: btr :: btg :: btc :: fiv :: clock0 :: nl :: r =>
-      let K := {| c_cap := 2 ^ capk; c_batch := batch;
+      (* dr = 2: UnboundedBlocking frontend queue (initial capacity 2^capk in the driver, grows on demand, never at
+         its maximum in these runs): to the backend a FIFO that never refuses, modelled as a bounded blocking
+         queue too large to fill; node switches are verified at the queue level (C02) *)
+      let K := {| c_cap := if dr =? 2 then 2 ^ 40 else 2 ^ capk; c_batch := batch;
                   c_pub := {| on_batch := negb (ob =? 0); on_drain := negb (od =? 0) |};
-                  c_dropping := negb (dr =? 0); c_tinit := tinit; c_soft := soft; c_hard := hard;
+                  c_dropping := (dr =? 1); c_tinit := tinit; c_soft := soft; c_hard := hard;
                   c_grace := grace; c_bits := bits; c_refresh2 := negb (rf2 =? 0); c_catch_all := negb (ca =? 0);
                   c_report_first := negb (rfirst =? 0);
                   c_bt := {| reset_index_in_process := negb (btr =? 0); cap0_guard := negb (btg =? 0) |};
